@@ -43,6 +43,13 @@ PSETS_THOROUGH = PSETS_QUICK + ['conf', 'vb2', 'icmix', 'ic+vb', 'ab+conf+ranks+
 COLS = ('x', 'y', 'z', 'vx', 'vy', 'vz', 'mass')
 
 
+def BOUNDS(tier):
+    return dict(parameter_sets=PSETS_QUICK if tier == 'quick' else PSETS_THOROUGH, geometries=GEOMS[:1] if tier == 'quick' else GEOMS,
+                nthread=[1, 3] if tier == 'quick' else [1, 2, 3, 16], masses=R.MASSES, multiplicities=R.MULTIS, weights=R.WEIGHTS,
+                secondary_triples=R.SEC, particle_rank_tuples=R.PRANKS, tracer_subsets=7, ic_values=[0.2, 0.5, 1.0],
+                table_rows='halos 7280 / particles 49920 (ic sets: 20720 / 142080)')
+
+
 def cases(tier, seed):
     modes = ((False, False), (True, False), (True, True), (False, True))      # (rsd, light-cone origin)
     todo = []
@@ -146,7 +153,7 @@ def run(case):
     params = dict(z=0.5, h=0.6736, Lbox=L, Mpart=2.109e9, velz2kms=velz, origin=origin, chunk=-1, numslabs=1)
     probs, nt = [], []
     ex = dict(runs=0, host_decisions=0, particle_decisions=0, galaxies_checked=0, centrals_checked=0, satellites_checked=0,
-              edge_tolerated=0, zero_random_convention=0, wrapped_galaxies=0, landed_on_box_edge=0, bitwise_catalogue_comparisons=0,
+              edge_tolerated=0, strict_decisions=0, zero_random_convention=0, wrapped_galaxies=0, landed_on_box_edge=0, bitwise_catalogue_comparisons=0,
               nested_comparisons=0)
     sample = None
 
@@ -191,6 +198,7 @@ def run(case):
             ex['host_decisions'] += T.H
             ex['particle_decisions'] += T.P
             ex['edge_tolerated'] += int((Ah.sum(axis=1) > 1).sum() + (Ap.sum(axis=1) > 1).sum())
+            ex['strict_decisions'] += int((Ah.sum(axis=1) == 1).sum() + (Ap.sum(axis=1) == 1).sum())
             ex['zero_random_convention'] += int(((T.hrandoms == 0) & Ah[:, 0] & (Ah.sum(axis=1) > 1)).sum()) if not en[0] else 0
             seen_c, seen_s = [], []
             res = {}
@@ -220,7 +228,7 @@ def run(case):
                     oz = arr[:, 2]
                     if ((oz < -L / 2) | (oz >= L / 2)).any():
                         i = int(np.argmax((oz < -L / 2) | (oz >= L / 2)))
-                        P('rsd:z-outside-box', f'{tag} {tn}: galaxy {i} (id {ids[i]}) has z={oz[i]!r} outside [-L/2, L/2) with L={L}')
+                        P('rsd:z-outside-box', f'{tag} {tn}: galaxy {i} (id {ids[i]}) has z={float(oz[i])!r} outside [-L/2, L/2) with L={L}')
                 hidx = np.searchsorted(T.hid, ids)
                 hidx_c = np.minimum(hidx, T.H - 1)
                 known = T.hid[hidx_c] == ids
@@ -255,6 +263,12 @@ def run(case):
                                 true_id = int(T.hid[q]) if kind == 'cent' else int(T.phid[q])
                                 P(f'field:{kind}:id:{mode}', f'{tag} {tn}: galaxy row {gi} (Ncent={ncen}) carries id {ids[gi]} but all its other columns are those of '
                                   f'{"halo" if kind == "cent" else "particle"} {q} whose host id is {true_id}; row={dict(zip(COLS, arr[gi].tolist()))}')
+                                continue
+                            other, okind = (exps[k], 'sat') if kind == 'cent' else (expc[k], 'cent')
+                            inother = np.flatnonzero(_colmatch(o[i][None, :], other, mode, L).all(axis=1))
+                            if len(inother):
+                                P(f'order:{kind}-block-holds-a-{okind}', f'{tag} {tn}: row {gi} of {N} with Ncent={ncen} lies in the {kind} block but is the {okind} galaxy of '
+                                  f'{"particle" if okind == "sat" else "halo"} {int(inother[0])}; row={dict(zip(COLS, arr[gi].tolist()))}')
                                 continue
                             P(f'field:{kind}:{colsbad}:{mode}',
                               f'{tag} {tn}: galaxy row {gi} (Ncent={ncen}, id {ids[gi]}) does not equal its host in columns {colsbad}:\n observed {dict(zip(COLS, arr[gi].tolist()))}\n expected {dict(zip(COLS, expall[j].tolist()))}\n from {src}; alpha_c={ps["tracers"][tn]["alpha_c"]} alpha_s={ps["tracers"][tn]["alpha_s"]} velz2kms={velz} L={L} origin={None if origin is None else origin.tolist()}')
@@ -347,10 +361,10 @@ def run(case):
 
 def _describe(kind, j, T, Wc, Wp_by_kc, Ah):
     if kind == 'cent':
-        return (f'halo {j} (id {T.hid[j]}, mass {T.hmass[j]!r}, multiplicity {T.hmultis[j]!r}, deltac/fenv/shear {T.hdeltac[j]}/{T.hfenv[j]}/{T.hshear[j]}, '
-                f'stored random {T.hrandoms[j]!r}, reference cumulative markers LRG/ELG/QSO {np.cumsum(Wc[j]).tolist()})')
+        return (f'halo {j} (id {T.hid[j]}, mass {float(T.hmass[j])!r}, multiplicity {float(T.hmultis[j])!r}, deltac/fenv/shear {T.hdeltac[j]}/{T.hfenv[j]}/{T.hshear[j]}, '
+                f'stored random {float(T.hrandoms[j])!r}, reference cumulative markers LRG/ELG/QSO {np.cumsum(Wc[j]).tolist()})')
     h = int(T.pinds[j])
     mk = {kc: np.cumsum(W[j]).tolist() for kc, W in Wp_by_kc.items()}
-    return (f'particle {j} of halo {h} (id {T.phid[j]}, host mass {T.phmass[j]!r}, weight {T.pweights[j]!r}, ranks {T.prk[j].tolist()}, '
-            f'deltac/fenv/shear {T.pdeltac[j]}/{T.pfenv[j]}/{T.pshear[j]}, stored random {T.prandoms[j]!r}, host central outcome allowed [none,LRG,ELG,QSO]={Ah[h].tolist()}, '
+    return (f'particle {j} of halo {h} (id {T.phid[j]}, host mass {float(T.phmass[j])!r}, weight {float(T.pweights[j])!r}, ranks {T.prk[j].tolist()}, '
+            f'deltac/fenv/shear {T.pdeltac[j]}/{T.pfenv[j]}/{T.pshear[j]}, stored random {float(T.prandoms[j])!r}, host central outcome allowed [none,LRG,ELG,QSO]={Ah[h].tolist()}, '
             f'reference cumulative markers by host-central code {mk})')
